@@ -337,7 +337,7 @@ func (f *FuncCtx) countCall(text string, args []Val, e *ast.CallExpr, env *Env) 
 				bound[fmt.Sprintf("a%d", i+1)] = a
 			}
 			for k, cl := range reqs {
-				sc := &specCtx{bound: []map[string]Val{bound}, old: f.entry, pos: sitePos, scope: fr.scope, pcs: f.PC}
+				sc := &specCtx{bound: []map[string]Val{bound}, old: f.entry, pos: sitePos, scope: fr.scope, pcs: f.PC, innerPos: e.Pos()}
 				g := f.evalClause(cl, env, sc)
 				f.oblige(fmt.Sprintf("callreq.%s#%d.%d", text, f.callOrd[text], k+1), "callreq", env, g, cl.Text, fmt.Sprintf("%s:%d", shortPath(cl.File), cl.Line))
 			}
@@ -529,8 +529,10 @@ func (f *FuncCtx) callFunc(fn *types.Func, recv *Val, recvExpr ast.Expr, e *ast.
 		// functions used in specs without contract: treat as pure uninterpreted
 		return f.pureApp(short, sig, recv, args)
 	}
-	// abstract: results havocked, modelled state untouched
-	f.note("call abstracted (results unconstrained, no effect on modelled state): " + short)
+	// abstract: results havocked, modelled state untouched -- except scalars passed by pointer, which the
+	// callee may overwrite (errors.As(err, &target), json.Unmarshal(b, &x), ...): those are havocked
+	f.havocPointerArgs(e, env)
+	f.note("call abstracted (results unconstrained, no effect on modelled state except pointer-to-scalar arguments): " + short)
 	return f.resultsOf(sig, fn.Name())
 }
 
@@ -1133,4 +1135,39 @@ func (f *FuncCtx) ghostAssign(cl Clause, bound map[string]Val, at ast.Node, env 
 	nv := Val{T: f.mapStore(f.name(g, name), k, f.coerce(rhs, mt.Elem())), Typ: g.Typ}
 	env.names["$g:"+name] = f.name(nv, name)
 	f.spec = saved
+}
+
+
+// havocPointerArgs havocs variables whose address (pointer to a non-struct value) is passed to an abstracted call.
+func (f *FuncCtx) havocPointerArgs(e *ast.CallExpr, env *Env) {
+	if f.spec != nil {
+		return
+	}
+	for _, a := range e.Args {
+		a = ast.Unparen(a)
+		if u, ok := a.(*ast.UnaryExpr); ok && u.Op == token.AND {
+			if id, ok := ast.Unparen(u.X).(*ast.Ident); ok {
+				if o := f.info().ObjectOf(id); o != nil {
+					if _, isStruct := o.Type().Underlying().(*types.Struct); !isStruct || true {
+						if v, ok := env.vars[o]; ok && v.Clo == nil {
+							env.vars[o] = f.freshVal(o.Type(), id.Name)
+						}
+					}
+				}
+			}
+			continue
+		}
+		if id, ok := a.(*ast.Ident); ok {
+			if o := f.info().ObjectOf(id); o != nil {
+				if p, ok := o.Type().Underlying().(*types.Pointer); ok {
+					if _, _, isStructPtr := ptrStruct(o.Type()); !isStructPtr {
+						if v, ok := env.vars[o]; ok && v.Clo == nil {
+							nv := f.freshVal(p.Elem(), id.Name)
+							env.vars[o] = Val{T: fmt.Sprintf("(some %s)", nv.T), Typ: o.Type()}
+						}
+					}
+				}
+			}
+		}
+	}
 }
